@@ -205,7 +205,7 @@ def grid_scenarios(rng: random.Random, tier: str) -> list[dict]:
 def pty_scenarios(rng: random.Random, tier: str) -> list[tuple[dict, list]]:
     """(scenario, real bursts per write) for the real pty; DA1 always answered (5 s timeout)
     or nothing answered at all (62.5 ms timeout)."""
-    n = 100 if tier == "quick" else 1500
+    n = 70 if tier == "quick" else 1500
     out = []
     for i in range(n):
         op = rng.choice(["colors", "colors", "namever", "cellsize", "kitty", "auto"])
@@ -326,7 +326,7 @@ def main(rep: Report, replay: dict | None) -> None:
     rep.extra["replayed_behaviours"] = len(scens)
     rep.extra["replay_wall_s"] = round(time.time() - t0, 1)
     # 2. code -> spec (i): syscall traces of those runs (quick: a seeded sample)
-    sample = runs if not quick else rng.sample(runs, min(len(runs), 110))
+    sample = runs if not quick else rng.sample(runs, min(len(runs), 70))
     for scn, run in sample:
         traces.append(K.make_trace("virtual", scn, run, c12=scn["intime"]))
         owners.append({"kind": "vtty", "scn": scn, "origin": "MC_Tty behaviour"})
